@@ -28,6 +28,7 @@ vars == <<l, tx, snap, viol, fired>>
 Touch == [ Accounts      |-> {"AddBalance", "SubBalance", "SetNonce", "SetCode", "Suicide", "CreateAccount"},
            Storage       |-> {"SetState", "CreateAccount"},
            Logs          |-> {"AddLog"},
+           Preimages     |-> {"AddPreimage"},
            Refund        |-> {"AddRefund", "SubRefund"},
            Validators    |-> {"CreateValidator", "UpdateValidator", "RemoveValidator", "UpdateDelegation"},
            Stats         |-> {"CreateValidator", "UpdateValidator", "RemoveValidator", "UpdateDelegation"},
@@ -46,6 +47,7 @@ Holds(c, e, s) ==
    CASE c = "Accounts"      -> AcctView(e.obs, {"exists", "sui", "bal", "nonce", "code"}) = AcctView(s.obs, {"exists", "sui", "bal", "nonce", "code"})
      [] c = "Storage"       -> AcctView(e.obs, {"s1", "s2"}) = AcctView(s.obs, {"s1", "s2"})
      [] c = "Logs"          -> e.obs.logs = s.obs.logs
+     [] c = "Preimages"     -> e.obs.pre = s.obs.pre
      [] c = "Refund"        -> e.obs.refund = s.obs.refund
      [] c = "Validators"    -> e.obs.vals = s.obs.vals
      [] c = "Stats"         -> e.obs.stat = s.obs.stat
